@@ -473,11 +473,8 @@ impl<'a> BlobRef<'a> {
                 data_idx = backtrack_data_idx;
                 pattern_idx = backtrack_pattern_idx;
             } else {
-                // Pattern exhausted but data remains (only OK if trailing %)
-                // Check if pattern ends with %
-                if pattern.last() == Some(&b'%') {
-                    return true;
-                }
+                // Pattern exhausted but data remains, and no % to expand (a pattern that ends in an unescaped %
+                // has one: a final `\%` is a literal per cent sign, not a wildcard)
                 return false;
             }
         }
